@@ -117,8 +117,16 @@ class Ctx:
     def thorough(self) -> bool:
         return self.tier == "thorough"
 
+    # Thorough-tier budget (about 20 min per property on this machine): after the source-derived programs were added to the drivers
+    # (every line answered a second time) three checks ran 23-27 min; their thorough sample sizes are cut by these factors (never
+    # below the quick size).  Exhaustive blocks do not go through scale() and are unaffected.
+    THOROUGH_FACTOR = {"C04": 0.55, "C07": 0.6, "C16": 0.55}
+
     def scale(self, quick: int, thorough: int) -> int:
-        return thorough if self.thorough else quick
+        if not self.thorough:
+            return quick
+        f = self.THOROUGH_FACTOR.get(self.prop)
+        return thorough if f is None else max(quick, int(thorough * f))
 
     # ---- Lean -----------------------------------------------------------------------
     def lake_build(self, targets: List[str], timeout=3000) -> Tuple[bool, str]:
